@@ -96,7 +96,7 @@ func (w *cacheWorld) ctx(id int) context.Context {
 	if c, ok := w.ctxs[id]; ok {
 		return c
 	}
-	c, cancel := context.WithCancel(context.WithValue(context.Background(), markerKey, id))
+	c, cancel := cancellable(context.WithValue(context.Background(), markerKey, id), uint64(id))
 	w.ctxs[id] = c
 	w.cancels[id] = cancel
 	return c
@@ -522,6 +522,9 @@ func cmdCache(args []string) int {
 			st.Samples = append(st.Samples, req+" -> "+strings.Join(outs, " "))
 		}
 	}
+	if *stress > 0 {
+		cacheManyStatements(4500, addViol)
+	}
 	for i := 0; i < *stress; i++ {
 		cacheStress(r.fork(), addViol)
 		for k := 0; k < 3; k++ {
@@ -583,7 +586,7 @@ func shapeMismatch(ev event) string {
 // exactly the SQL of that call on that DB, no closed statement is executed, no
 // statement is closed twice, no call fails.
 func cacheStress(r *rng, add func(violation)) {
-	nS, nD := 2, 2
+	nS, nD := 2, 4
 	stmts := make([]*sqlair.Statement, nS)
 	for i := range stmts {
 		cacheStmtCounter++
@@ -613,10 +616,25 @@ func cacheStress(r *rng, add func(violation)) {
 		f.gate = gate
 		f.honourCtx = true
 		f.failKinds = map[string]bool{"query": true, "exec": true}
-		dbs[i] = sqlair.NewDB(sqldb)
 		sqldbs[i] = sqldb
 		fakes[i] = f
 	}
+	// the sqlair.DB values are created at the same time, from several goroutines
+	{
+		var wg sync.WaitGroup
+		start := make(chan struct{})
+		for i := range dbs {
+			wg.Add(1)
+			go func(i int) {
+				defer wg.Done()
+				<-start
+				dbs[i] = sqlair.NewDB(sqldbs[i])
+			}(i)
+		}
+		close(start)
+		wg.Wait()
+	}
+	okCalls := make([]int64, nD)
 	desc := fmt.Sprintf("stress seed-state %d", r.s)
 	viol := func(prop, name, detail string) { add(violation{prop, name, hx(desc), detail}) }
 	var wg sync.WaitGroup
@@ -641,7 +659,7 @@ func cacheStress(r *rng, add func(violation)) {
 				cancel := func() {}
 				switch gr.intn(10) {
 				case 0:
-					ctx, cancel = context.WithCancel(context.Background())
+					ctx, cancel = cancellable(context.Background(), uint64(k))
 					time.AfterFunc(time.Duration(30+gr.intn(300))*time.Microsecond, cancel)
 				case 1:
 					ctx, cancel = context.WithTimeout(context.Background(), time.Duration(30+gr.intn(300))*time.Microsecond)
@@ -649,6 +667,9 @@ func cacheStress(r *rng, add func(violation)) {
 				err := dbs[d].Query(ctx, stmts[s], sl, ss).GetAll(&ps)
 				own := ctx.Err()
 				cancel()
+				if err == nil {
+					atomic.AddInt64(&okCalls[d], 1)
+				}
 				if err != nil {
 					isCtx := errors.Is(err, context.Canceled) || errors.Is(err, context.DeadlineExceeded) ||
 						strings.Contains(err.Error(), "context canceled") || strings.Contains(err.Error(), "deadline exceeded")
@@ -685,6 +706,16 @@ func cacheStress(r *rng, add func(violation)) {
 	for di, f := range fakes {
 		prepared := map[int]string{}
 		closed := map[int]int{}
+		executed := int64(0)
+		for _, ev := range f.log() {
+			if (ev.Kind == "query" || ev.Kind == "exec") && ev.Err == nil {
+				executed++
+			}
+		}
+		// every call that succeeded was executed on the database it was issued on
+		if n := atomic.LoadInt64(&okCalls[di]); n > executed {
+			viol("C09", "call-executed-on-another-database", fmt.Sprintf("%d calls on database %d succeeded, its driver executed %d statements", n, di, executed))
+		}
 		for _, ev := range f.log() {
 			switch ev.Kind {
 			case "prepare":
@@ -752,7 +783,7 @@ func cachePrepareCancel(r *rng, add func(violation)) {
 	}
 	rounds := 1 + r.intn(3)
 	for i := 0; i < rounds; i++ {
-		ctx, cancel := context.WithCancel(context.Background())
+		ctx, cancel := cancellable(context.Background(), uint64(i))
 		f.mu.Lock()
 		f.gate = func(ev event) {
 			if ev.Kind == "prepare" {
@@ -807,6 +838,89 @@ func cachePrepareCancel(r *rng, add func(violation)) {
 	dropFakeDB(f.name)
 }
 
+// cacheManyStatements: several thousand Statements are alive and prepared on one DB at the same time; every
+// one of them is run once and then once more: no run fails, nothing is executed on a closed driver
+// statement, and after everything was dropped every driver statement has been closed exactly once.
+func cacheManyStatements(n int, add func(violation)) {
+	viol := func(prop, name, detail string) {
+		add(violation{prop, name, hx(fmt.Sprintf("%d statements on one DB", n)), detail})
+	}
+	settle()
+	sqldb, f := openFake()
+	sqldb.SetMaxOpenConns(1)
+	f.rowsFor = func(sql string, _ []driver.NamedValue) *rowsScript {
+		rs := defaultRows(sql)
+		rs.Rows = nil
+		return rs
+	}
+	db := sqlair.NewDB(sqldb)
+	stmts := make([]*sqlair.Statement, n)
+	for i := range stmts {
+		cacheStmtCounter++
+		stmts[i] = sqlair.MustPrepare(fmt.Sprintf("SELECT &Person.* FROM person WHERE id = $Person.id -- many %d", cacheStmtCounter), Person{})
+	}
+	failed := 0
+	for round := 0; round < 2 && failed < 3; round++ {
+		for i, st := range stmts {
+			var p Person
+			if err := db.Query(context.Background(), st, Person{ID: i}).Get(&p); err != nil && !errors.Is(err, sqlair.ErrNoRows) {
+				failed++
+				viol("C10", "operation-failed-in-fault-free-history", fmt.Sprintf("statement %d of %d, round %d: %v", i, n, round+1, err))
+				if failed >= 3 {
+					break
+				}
+			}
+		}
+	}
+	closed := map[int]int{}
+	for _, ev := range f.log() {
+		switch ev.Kind {
+		case "stmtclose":
+			closed[ev.Stmt]++
+		case "query", "exec":
+			if closed[ev.Stmt] > 0 {
+				viol("C10", "closed-driver-statement-executed", fmt.Sprintf("stmt %d", ev.Stmt))
+			}
+		case "query-on-closed", "exec-on-closed":
+			viol("C10", "closed-driver-statement-executed", fmt.Sprintf("stmt %d", ev.Stmt))
+		}
+	}
+	for i := range stmts {
+		stmts[i] = nil
+	}
+	db = nil
+	settle()
+	settle()
+	prepared := map[int]bool{}
+	closed = map[int]int{}
+	for _, ev := range f.log() {
+		switch ev.Kind {
+		case "prepare":
+			if ev.Err == nil {
+				prepared[ev.Stmt] = true
+			}
+		case "stmtclose":
+			closed[ev.Stmt]++
+		}
+	}
+	never, twice := 0, 0
+	for id := range prepared {
+		if closed[id] == 0 {
+			never++
+		} else if closed[id] > 1 {
+			twice++
+		}
+	}
+	if never > 0 {
+		viol("C11", "driver-statement-never-closed", fmt.Sprintf("%d of %d after everything was dropped and collected", never, len(prepared)))
+	}
+	if twice > 0 {
+		viol("C11", "driver-statement-closed-twice", fmt.Sprintf("%d of %d", twice, len(prepared)))
+	}
+	sqldb.Close()
+	dropFakeDB(f.name)
+}
+
 // heldContext: a Query keeps the context it was built with for every run of it (C20): the driver sees
 // that context whenever the Query is run, and once the context has ended a further run fails with its
 // error and executes nothing.
@@ -824,7 +938,7 @@ func heldContext(r *rng, add func(violation)) {
 		return rs
 	}
 	const marker = 4242
-	ctx, cancel := context.WithCancel(context.WithValue(context.Background(), markerKey, marker))
+	ctx, cancel := cancellable(context.WithValue(context.Background(), markerKey, marker), r.next())
 	defer cancel()
 	var q *sqlair.Query
 	var tx *sqlair.TX
